@@ -1813,6 +1813,8 @@ def tt_loglikelihood(
 
     assert isinstance(Model, ttb.ktensor), "Model must be a ktensor"
 
+    # Work on a copy: evaluating the objective must not rescale the caller's model
+    Model = Model.copy()
     Model.normalize(weight_factor=0, normtype=1)
     if isinstance(Data, ttb.sptensor):
         xsubs = Data.subs
